@@ -193,6 +193,7 @@ func (n *vnode) info(name string) os.FileInfo {
 // vfs implements all handler interfaces; which optional ones are visible is decided by the wrapper types below.
 type vfs struct {
 	lastCtx       context.Context
+	writeFailEOF  bool    // failing WriteAt calls return io.EOF (status SSH_FX_EOF) instead of a failure with text
 	failPartial   bool    // a scripted failure of ReadAt / ListAt (failAt) comes WITH data: (n > 0, err)
 	closeErrEvery int     // > 0: the Close method of every object whose id is a multiple of it returns an error (it still releases the object)
 	reenter       bool    // handler objects call the exported Request API (Context, WithContext) from inside their methods, as a real handler may
@@ -428,6 +429,9 @@ func (o *vobj) WriteAt(p []byte, off int64) (int, error) {
 		err = e
 	} else if b := o.v.firstBad(off, len(p), false, o.node); b >= 0 {
 		err = fmt.Errorf("E@%d", b)
+		if o.v.writeFailEOF {
+			err = io.EOF // reaches the client as the status code SSH_FX_EOF
+		}
 	} else {
 		o.v.mu.Lock()
 		need := int(off) + len(p)
